@@ -8,6 +8,16 @@ use schemars::schema::{
 };
 use serde_json::Value;
 
+/// a reference string; the common prefix is abbreviated with Run_C08.RF (the
+/// terms of documents with hundreds of definitions stay small)
+pub fn g_ref(s: &str) -> String {
+    const P: &str = "#/components/schemas/";
+    match s.strip_prefix(P) {
+        Some(rest) => format!("(RF {})", g_str(rest)),
+        None => g_str(s),
+    }
+}
+
 // ---------------------------------------------------------------- numbers
 
 /// an f64 as an exact rational, reduced: `(Q n d)`
@@ -182,6 +192,34 @@ pub fn g_sobj(o: &SchemaObject) -> String {
         SingleOrVec::Vec(v) => format!("(Multi {})", g_list(v, |t| g_itype(t).to_string())),
     });
     let ext: Vec<(&String, &Value)> = o.extensions.iter().collect();
+    // abbreviations defined in Run_C08.v (partial applications of mkSObj)
+    if o.metadata.is_none() && o.format.is_none() && o.enum_values.is_none() && o.const_value.is_none() {
+        if let (Some(SingleOrVec::Single(t)), None) = (&o.instance_type, &o.subschemas) {
+            return format!(
+                "(SOT {} {} {} {} {} {} {})",
+                g_itype(t),
+                g_opt(&o.number, |n| g_numval(n)),
+                g_opt(&o.string, |s| g_strval(s)),
+                g_opt(&o.array, |a| g_arrval(a)),
+                g_opt(&o.object, |ob| g_objval(ob)),
+                g_opt(&o.reference, |s| g_ref(s)),
+                g_list(&ext, |(k, v)| format!("({},{})", g_str(k), g_json(v)))
+            );
+        }
+        if o.instance_type.is_none()
+            && o.number.is_none()
+            && o.string.is_none()
+            && o.array.is_none()
+            && o.object.is_none()
+        {
+            return format!(
+                "(SOU {} {} {})",
+                g_opt(&o.subschemas, |s| g_subs(s)),
+                g_opt(&o.reference, |s| g_ref(s)),
+                g_list(&ext, |(k, v)| format!("({},{})", g_str(k), g_json(v)))
+            );
+        }
+    }
     format!(
         "(mkSObj {} {} {} {} {} {} {} {} {} {} {} {})",
         g_opt(&o.metadata, |m| g_meta(m)),
@@ -194,7 +232,7 @@ pub fn g_sobj(o: &SchemaObject) -> String {
         g_opt(&o.string, |s| g_strval(s)),
         g_opt(&o.array, |a| g_arrval(a)),
         g_opt(&o.object, |ob| g_objval(ob)),
-        g_opt(&o.reference, |s| g_str(s)),
+        g_opt(&o.reference, |s| g_ref(s)),
         g_list(&ext, |(k, v)| format!("({},{})", g_str(k), g_json(v)))
     )
 }
@@ -231,7 +269,7 @@ pub fn g_oas(v: &Value) -> Result<String, String> {
         if m.len() != 1 {
             return Err("$ref with siblings".into());
         }
-        return Ok(format!("(ORef {})", g_str(r.as_str().ok_or("$ref not a string")?)));
+        return Ok(format!("(ORef {})", g_ref(r.as_str().ok_or("$ref not a string")?)));
     }
     let mut used: Vec<&str> = vec![];
     let mut get = |k: &'static str| -> Option<&Value> {
@@ -271,7 +309,11 @@ pub fn g_oas(v: &Value) -> Result<String, String> {
     let description = s(get("description"))?;
     let default = get("default").cloned();
     let exts: Vec<(&String, &Value)> = m.iter().filter(|(k, _)| k.starts_with("x-")).collect();
-    let data = format!(
+    let data = if !nullable && !read_only && !write_only && !deprecated && example.is_none() && title.is_none()
+        && description.is_none() && default.is_none() && exts.is_empty()
+    {
+        "D0".to_string()
+    } else { format!(
         "(mkSData {} {} {} {} {} {} {} {} {})",
         g_bool(nullable),
         g_bool(read_only),
@@ -282,7 +324,7 @@ pub fn g_oas(v: &Value) -> Result<String, String> {
         g_opt(&description, |x| g_str(x)),
         g_opt(&default, g_json),
         g_list(&exts, |(k, v)| format!("({},{})", g_str(k), g_json(v)))
-    );
+    ) };
     let list = |v: &Value| -> Result<String, String> {
         let a = v.as_array().ok_or("not an array")?;
         let mut out = vec![];
